@@ -29,13 +29,15 @@ def mkfn(params: Tuple[str, ...], impl: Callable[[Dict[str, Any]], Any], is_asyn
             name,
             ", ".join(params),
             "await " if awaiting else "",
-            ", ".join("{!r}: {}".format(p.lstrip("*"), p.lstrip("*")) for p in params if p not in ("/", "*")),
+            # (a parameter may be spelled with a default: "name=<expression>")
+            ", ".join("{!r}: {}".format(p.lstrip("*").split("=")[0], p.lstrip("*").split("=")[0])
+                      for p in params if p not in ("/", "*")),
         )
         ns = {}  # type: Dict[str, Any]
         exec(compile(src, "<vfw.build:{}>".format(name), "exec"), ns)
-        code = ns[name].__code__
+        code = (ns[name].__code__, ns[name].__defaults__)
         _CODE_CACHE[key] = code
-    fn = types.FunctionType(code, {"__impl__": impl}, name)
+    fn = types.FunctionType(code[0], {"__impl__": impl}, name, code[1])
     fn.__qualname__ = name
     return fn
 
@@ -316,6 +318,37 @@ _CHECK_ON = {
 }
 
 
+def _sibling_accessor(built: Built, which: str, lvl: int) -> Callable[..., Any]:
+    """The other accessor(s) of the property under test.  Every level that defines the member also re-defines its
+    siblings (new function objects); the root level's siblings carry contracts of their own which are always falsy and
+    leave a ("sibling", ...) entry in the log: they are never called by the harnesses, so none of their contracts may
+    ever be evaluated - unless the library lets an accessor's contracts leak into another accessor."""
+    if which == "get":
+        def sibling(self: Any) -> Any:
+            return None
+    else:
+        def sibling(self: Any, value: Any) -> Any:  # type: ignore
+            return None
+    if lvl != 0:
+        return sibling
+
+    def sib_pre(self: Any) -> Any:
+        built.rt.log.append(("sibling", which, "pre"))
+        return False
+
+    def sib_post(self: Any) -> Any:
+        built.rt.log.append(("sibling", which, "post"))
+        return False
+
+    def sib_cap(self: Any) -> Any:
+        built.rt.log.append(("sibling", which, "snap"))
+        return None
+    fn = icontract.ensure(sib_post, error=lambda: Tag(("sibling", which, "post")))(sibling)
+    fn = icontract.snapshot(sib_cap, name="sibling_" + which)(fn)
+    fn = icontract.require(sib_pre, error=lambda: Tag(("sibling", which, "pre")))(fn)
+    return fn
+
+
 def build(prog: Prog, rt: Optional[RT], use_dbc: bool = True, root_init: bool = True,
           error_mode: Optional[str] = None, async_conds: int = 0, post_old: int = 0,
           async_level: Optional[int] = None) -> Built:
@@ -353,9 +386,10 @@ def build(prog: Prog, rt: Optional[RT], use_dbc: bool = True, root_init: bool = 
             elif kind == "prop_get":
                 ns[member] = property(fget=fn)
             elif kind == "prop_set":
-                ns[member] = property(fget=lambda self: None, fset=fn)
+                ns[member] = property(fget=_sibling_accessor(rt, "get", lvl), fset=fn)
             elif kind == "prop_del":
-                ns[member] = property(fget=lambda self: None, fdel=fn)
+                ns[member] = property(fget=_sibling_accessor(rt, "get", lvl), fset=_sibling_accessor(rt, "set", lvl),
+                                      fdel=fn)
             else:
                 ns[member] = fn
         if lvl == 0:
